@@ -313,7 +313,8 @@ def mm_process_swaps():
     d["ensures"] = d["ensures"] + [
         C("exact", """exists|reqs: Seq<Transaction>| #[trigger] selected(state.transactions@, reqs, swap_pred(state)) && swap_reqs_ok(state.pools@, state.coins@.coins, reqs)
                && swaps_done(state.pools@, state.coins@.coins, state.height, reqs, mentioned_set(reqs), res.pools@, res.coins@.coins)""", "C15", "C01", "C16",
-          note="every pool named by a genuine swap request is settled exactly once, at one price for both directions; nothing else moves")]
+          note="every pool named by a genuine swap request is settled exactly once, at one price for both directions; nothing else moves"),
+        C("mono", "liqs_mono(state.pools@, res.pools@) && ids_sub(state.coins@.coins, res.coins@.coins)", "C16")]
     return d
 
 def mm_deposits_single():
@@ -324,6 +325,8 @@ def mm_deposits_single():
                   C("fits", "true_sum(dep_weights(old(deposits)@), old(deposits)@.len() as int) <= u128::MAX", note="C09 envelope: the deposits' weights isqrt(l)*isqrt(r) add up to less than 2^128 (each is below 2^120)")],
         ensures=[C("result", """exists|minted: int| #[trigger] deposits_result(old(state).pools@, old(state).coins@.coins, old(deposits)@, *pool, old(state).height,
                         deposit_legacy(old(state).network, old(state).height), final(state).pools@, final(state).coins@.coins, minted)""", "C15", "C16", "C01"),
+                 C("ids", "forall|id: CoinID| #[trigger] final(state).coins@.coins.contains_key(id) ==> old(state).coins@.coins.contains_key(id) || exists|i: int| 0 <= i < old(deposits)@.len() && id == cid(#[trigger] old(deposits)@[i], 0)", "C15", "C01",
+                   note="holds under the pre-978392 rules too: deposit settlement introduces no coin id other than the requests' first outputs"),
                  C("frame", "pool_phase_frame(*old(state), *final(state)) && final(state).fee_pool == old(state).fee_pool", "C15", "C17"),
                  C("inv", "final(state).coins.wf() && (spec_tip906(*old(state)) ==> counts_ok(final(state).coins@)) && origin_ok(final(state).coins@.coins) && (!spec_tip906(*old(state)) ==> final(state).coins@.counts == old(state).coins@.counts)", "C20")])
 
@@ -347,5 +350,15 @@ def mm_process_deposits():
     d["ensures"] = d["ensures"] + [
         C("exact", """exists|reqs: Seq<Transaction>, mint: spec_fn(PoolKey) -> int| #[trigger] selected(state.transactions@, reqs, deposit_pred(state)) && dep_reqs_ok(state.coins@.coins, reqs)
                && #[trigger] deps_done(state.pools@, state.coins@.coins, state.height, deposit_legacy(state.network, state.height), reqs, mentioned_set(reqs), mint, res.pools@, res.coins@.coins)""", "C15", "C01", "C16",
-          note="every pool named by a genuine deposit request is settled exactly once; liquidity handed out never exceeds what the pool records")]
+          note="every pool named by a genuine deposit request is settled exactly once; liquidity handed out never exceeds what the pool records"),
+        C("mono", "liqs_mono(state.pools@, res.pools@) && ids_sub(state.coins@.coins, res.coins@.coins)", "C16")]
+    return d
+
+def mm_process_withdrawals():
+    d = mm_phase("withdrawals")
+    d["requires"] = d["requires"] + [C("env", "wd_env(state.transactions@, state.pools@, state.coins@.coins, spec_tip(state.network, state.height, 180000))", note="C16 backing invariant as an envelope: see wd_env")]
+    d["ensures"] = d["ensures"] + [
+        C("exact", """exists|reqs: Seq<Transaction>, wl: spec_fn(PoolKey) -> int, wr: spec_fn(PoolKey) -> int| #[trigger] selected(state.transactions@, reqs, withdraw_pred(state)) && wd_reqs_ok(state.pools@, state.coins@.coins, reqs)
+               && #[trigger] wds_done(state.pools@, state.coins@.coins, state.height, reqs, mentioned_set(reqs), wl, wr, res.pools@, res.coins@.coins)""", "C15", "C01", "C16",
+          note="every pool named by a genuine withdrawal request is settled exactly once: exactly the redeemed liquidity is retired, payouts leave the reserves and are split pro rata")]
     return d
